@@ -42,7 +42,7 @@ func ruleSwapDeltaOrientation(rule string) func(c *Ctx) {
 			}
 			ast.Inspect(fn.Decl.Body, func(nd ast.Node) bool {
 				call, ok := nd.(*ast.CallExpr)
-				if !ok || !p.IsCall(call, "resources.Sub") || len(call.Args) != 2 {
+				if !ok || !p.IsCall(call, "resources.Sub") || len(call.Args) < 2 {
 					return true
 				}
 				a, b := p.resOfAlloc(call.Args[0]), p.resOfAlloc(call.Args[1])
@@ -126,7 +126,7 @@ func ruleRemoveApplicationIndependent(c *Ctx) {
 	}
 	var cs []cleanup
 	for _, call := range p.callsIn(fn, "objects.Queue.decPendingResource", "objects.Queue.DecAllocatedResource", "objects.Queue.DecPreemptingResource") {
-		if len(call.Args) != 1 {
+		if len(call.Args) < 1 {
 			continue
 		}
 		var o types.Object
@@ -225,7 +225,7 @@ func ruleQuotaDelayDelta(c *Ctx) {
 			continue // time.Time{} resets
 		}
 		sel, ok := unparen(call.Fun).(*ast.SelectorExpr)
-		if !ok || sel.Sel.Name != "Add" || len(call.Args) != 1 {
+		if !ok || sel.Sel.Name != "Add" || len(call.Args) < 1 {
 			continue
 		}
 		n++
